@@ -10,6 +10,7 @@ import (
 	"fmt"
 	"io"
 	"sync"
+	"sync/atomic"
 	"time"
 
 	plugin "github.com/hashicorp/go-plugin"
@@ -218,12 +219,24 @@ func runOneStdio(c stdioCase) (sx.V, sx.V) {
 		return in, sx.L{sx.S("start-error: " + err.Error()), sx.S("")}
 	}
 	defer cl.Kill()
+	// a write blocks in the plugin when nobody drains its stdio any more: bounded, and after the first one that
+	// does not come back the rest are skipped (what arrived is the observation)
+	var stuck int32
 	write := func(w stdioWrite) {
+		if atomic.LoadInt32(&stuck) != 0 {
+			return
+		}
 		k := "stdout"
 		if w.Stderr {
 			k = "stderr"
 		}
-		caller.Call(vp.Req{Op: "write", K: k, Data: w.Data})
+		done := make(chan struct{})
+		go func() { caller.Call(vp.Req{Op: "write", K: k, Data: w.Data}); close(done) }()
+		select {
+		case <-done:
+		case <-time.After(8 * time.Second):
+			atomic.StoreInt32(&stuck, 1)
+		}
 	}
 	if c.Concurrent {
 		var wg sync.WaitGroup
